@@ -131,6 +131,11 @@ func (e *Env) eval(ex ast.Expr) TV {
 			}
 			return TV{v, t}
 		}
+		if e.fr != nil {
+			if v, t, ok := x.lookupNameByDebugRefs(e.fr.fn, e.st, n.Name); ok {
+				return TV{v, t}
+			}
+		}
 		// package-level constant or variable
 		for _, pk := range []*types.Package{x.prog.Main.Pkg, x.fnPkg()} {
 			if pk == nil {
@@ -222,6 +227,11 @@ func (e *Env) pkgConst(pkg, name string) (TV, bool) {
 			if obj := p.Pkg.Scope().Lookup(name); obj != nil {
 				if c, ok := obj.(*types.Const); ok {
 					return e.constTV(c.Val(), c.Type()), true
+				}
+				if v, ok := obj.(*types.Var); ok {
+					if g := p.Var(name); g != nil {
+						return TV{e.x.load(e.st, e.x.globalAddr(g), v.Type()), v.Type()}, true
+					}
 				}
 			}
 		}
@@ -555,6 +565,26 @@ func (e *Env) evalCall(n *ast.CallExpr) TV {
 		name := fmt.Sprintf("I$visited%d$%s", ord, ks)
 		h := x.heap(e.st, name, arraySort("Int", arraySort(ks, "Bool")))
 		return TV{tt.Select(tt.Select(h, tt.IntLit(0)), asTerm(k.V)), tBool}
+	case "equalFold":
+		a, b := asTerm(arg(0).V), asTerm(arg(1).V)
+		if a.id > b.id {
+			a, b = b, a
+		}
+		return TV{tt.UF("equalFold$", "Bool", a, b), tBool}
+	case "runes":
+		st := asTerm(arg(0).V)
+		n := tt.UF("runeCount$", "Int", st)
+		if x.bv {
+			return TV{tt.App("(_ int2bv 64)", bvSort(64), n), tInt}
+		}
+		return TV{n, tInt}
+	case "deepEq":
+		return TV{x.deepEqual(e.st, asTerm(arg(0).V), asTerm(arg(1).V)), tBool}
+	case "elemAt":
+		// elemAt(v, i): i-th element (boxed) of a slice-kind dynamic value
+		return TV{x.reflIndex(e.st, asTerm(arg(0).V), asTerm(arg(1).V)), tAny}
+	case "lenOf":
+		return TV{x.reflLen(asTerm(arg(0).V)), tInt}
 	case "isJSON":
 		return TV{x.isJSON(asTerm(arg(0).V)), tBool}
 	case "pooltag":
@@ -733,6 +763,20 @@ func (x *Exec) lookupType(name string) types.Type {
 	if strings.HasPrefix(name, "[]") {
 		return types.NewSlice(x.lookupType(name[2:]))
 	}
+	if strings.HasPrefix(name, "map[") {
+		depth := 0
+		for i := 3; i < len(name); i++ {
+			switch name[i] {
+			case '[':
+				depth++
+			case ']':
+				depth--
+				if depth == 0 {
+					return types.NewMap(x.lookupType(name[4:i]), x.lookupType(name[i+1:]))
+				}
+			}
+		}
+	}
 	if b := types.Universe.Lookup(name); b != nil {
 		return b.Type()
 	}
@@ -817,6 +861,9 @@ func (e *Env) lvalueTargets(ex interface{}) []modTarget {
 		case "redeemed":
 			p := e.eval(n.Args[0])
 			return []modTarget{{heap: "G$redeemed", sort: arraySort("Int", "Bool"), idx: asTerm(p.V)}}
+		case "held":
+			p := e.eval(n.Args[0])
+			return []modTarget{{heap: "G$held", sort: arraySort("Int", "Bool"), idx: asTerm(p.V)}}
 		case "ghost":
 			hn, _ := strconv.Unquote(n.Args[0].(*ast.BasicLit).Value)
 			return []modTarget{{heap: hn, whole: true}}
